@@ -326,6 +326,28 @@ fn main() {
                 k += 1;
                 f.write_all(out.as_bytes()).unwrap();
             }
+            // long operands (comparisons that work in blocks): equal, differing in the last byte,
+            // one a strict prefix of the other, differing in the first byte; ASCII and arbitrary bytes
+            let lens: &[usize] = if big { &[31, 32, 33, 63, 64, 65, 127, 129, 1000, 4096, 4097] } else { &[31, 32, 33, 64, 65, 129, 300] };
+            for &n in lens {
+                for ascii in [true, false] {
+                    let x: Vec<u8> = (0..n).map(|_| if ascii { 0x20 + (rng.next() % 0x5f) as u8 } else { (rng.next() % 256) as u8 }).collect();
+                    let mut last = x.clone();
+                    last[n - 1] ^= 1;
+                    let mut first = x.clone();
+                    first[0] ^= 1;
+                    for y in [x.clone(), last, x[..n - 1].to_vec(), first] {
+                        out.clear();
+                        cmp_pair(&mut out, &x, &y, k);
+                        k += 1;
+                        f.write_all(out.as_bytes()).unwrap();
+                        out.clear();
+                        cmp_pair(&mut out, &y, &x, k);
+                        k += 1;
+                        f.write_all(out.as_bytes()).unwrap();
+                    }
+                }
+            }
         }
         "fmt" => {
             let mut k = seed as usize;
